@@ -50,7 +50,8 @@ def data_params(draw, rep=None, structure=None, max_n=300):
     low = draw(st.sampled_from(LOWS))
     random_values = draw(st.booleans())
     if random_values:
-        high = low + card - 1 + draw(st.sampled_from([0, 0, 1, 5, 50, 1000]))
+        wide = draw(st.integers(0, 39)) == 0        # now and then a range wider than 2^18 candidates (each draw permutes the range: slow)
+        high = low + card - 1 + (300_000 if wide else draw(st.sampled_from([0, 0, 1, 5, 50, 1000])))
     else:
         high = draw(st.sampled_from([1000 + low, low, low + card]))
     k = draw(st.sampled_from(K_VALUES))
@@ -110,6 +111,10 @@ def large_params(draw):
     """33 000 - 80 000 samples (more than any internal row block), same argument space otherwise."""
     case = draw(data_params())
     case['n_samples'] = draw(st.integers(33_000, 80_000))
+    if case['random_values'] and case['high'] - case['low'] > 5000:
+        case['high'] = case['low'] + case['cardinality'] - 1 + 1000
+        for ix, attrs in (case['structure'] or []):
+            pass
     return case
 
 
@@ -355,6 +360,11 @@ def oracle_csv(case, rec):
             os.mkdir(case['name'])
             with open(os.path.join(case['name'], 'stale.txt'), 'w') as fh:
                 fh.write('x')
+            # the folder of an earlier run with another shape: its data.csv is still there
+            with open(os.path.join(case['name'], 'data.csv'), 'w') as fh:
+                fh.write(','.join([f'f{i}' for i in range(nf + 3)] + ['label']) + '\n')
+                for i in range(rows + 7):
+                    fh.write(','.join(['1'] * (nf + 4)) + '\n')
         np.random.seed(case['np_seed'])
         cut('C19/csv', task_generators.outrank_task_generate_data_set, args)
         path = os.path.join(tmp, case['name'], 'data.csv')
